@@ -278,6 +278,17 @@ def donate (cfg : Cfg) (s : St) (i asset amt : Nat) : Res St :=
         | .err => .err
         | .panic => .panic
 
+/-- the factory owner removes pair `i` and creates a NEW pair for the same two assets (same fees),
+    seeded with `b0`, `b1`: registry entry `i` now names a fresh pool; the old contract keeps whatever it
+    held but no route resolves to it any more -/
+def replacePair (cfg : Cfg) (s : St) (i b0 b1 : Nat) : Res St :=
+  match cfg.pairs[i]? with
+  | none => .err
+  | some _ =>
+    let fresh : PoolSt :=
+      { bal := fun k => if k then b1 else b0, pend := fun _ => 0, allTime := fun _ => 0, burned := fun _ => 0 }
+    .ok { s with pool := set s.pool i fresh }
+
 /-- plain transfer of `amt` of `asset` to the router -/
 def fund (cfg : Cfg) (s : St) (asset amt : Nat) : Res St :=
   if amt = 0 then (if cfg.native asset then .err else .ok s)
